@@ -2,6 +2,7 @@ package checks
 
 import (
 	"bytes"
+	"context"
 	"crypto/x509"
 	"encoding/base64"
 	"encoding/json"
@@ -32,6 +33,7 @@ type reqSpec struct {
 	chainLen    int
 	agent       string
 	remote      bool
+	derive      bool // the request handed to Sign is req.WithContext(ctx)
 }
 
 type reqDev struct {
@@ -161,6 +163,7 @@ func c08Deviations() []reqDev {
 	// scheme, agent, signer, chain length
 	add("scheme-signing-authority", "scheme", "", func(r *reqSpec) { r.scheme = envenc.SchemeSA })
 	add("agent-text", "agent", "", func(r *reqSpec) { r.agent = "notation/1.2.3 (verif) ünï" })
+	add("request-derived-with-WithContext", "derive", "", func(r *reqSpec) { r.derive = true })
 	add("remote-signer", "signer", "", func(r *reqSpec) { r.remote = true })
 	for _, l := range []int{1, 3, 4} {
 		l := l
@@ -317,6 +320,9 @@ func c08Body(c *mc.Ctx, media, keyName string) {
 		return
 	}
 	c.Statef("variations=%v", names)
+	if r.derive {
+		req = req.WithContext(context.WithValue(context.Background(), callerKey{}, 1))
+	}
 	env, serr, pan := doSign(media, req)
 	sigOf := func(what string) string { return fmt.Sprintf("C08 %s %s %v", mediaShort(media), what, names) }
 	if pan != nil {
